@@ -44,7 +44,7 @@ SnapFailing(cs, i) == LET sn == cs.snaps[i] IN Failing(PropsAny, SRec(cs, sn), O
 BadSnaps(cs) == {i \in 1..Len(cs.snaps) : SnapFailing(cs, i) # {}}
 FirstBadSnap(cs) == IF BadSnaps(cs) = {} THEN 0 ELSE CHOOSE i \in BadSnaps(cs) : \A j \in BadSnaps(cs) : i <= j
 
-TraceInit == /\ st = [c \in Conns |-> InitConn("valid", "ok")] /\ ob = [c \in Conns |-> InitOb]
+TraceInit == /\ st = [c \in Conns |-> InitConn("valid", "ok", -1, -1)] /\ ob = [c \in Conns |-> InitOb]
              /\ now = 0 /\ lst = "open" /\ srv = "accept" /\ tr = <<>>
              /\ l = 1 /\ nbad = 0
 
